@@ -183,8 +183,8 @@ def check_case(case, res):
         if fm and fm["at"] == nd_:
             add_fmmu()
         data = bytes((d["seed"] + i) & 0xff for i in range(d["len"]))
-        before = (p.size, len(p.data), p.assemble(0, 0x88A4),
-                  sterile_of(p, case))
+        before = (p.size, len(p.data), p.assemble(case["index"], case["ethertype"]),
+                  sterile_of(p, case, case["index"], case["ethertype"]))
         fits = p.size + d["len"] + HDR + TAIL <= Packet.MAXSIZE and \
             len(accepted) < 15
         try:
@@ -219,8 +219,8 @@ def check_case(case, res):
                 f"{'accepted' if ok else 'rejected'}", case=case)
             return
         if not ok:
-            after = (p.size, len(p.data), p.assemble(0, 0x88A4),
-                     sterile_of(p, case))
+            after = (p.size, len(p.data), p.assemble(case["index"], case["ethertype"]),
+                     sterile_of(p, case, case["index"], case["ethertype"]))
             if after != before:
                 res.violation("unexplained:rejected-append-changed-packet",
                               "a rejected datagram changed the packet",
